@@ -50,7 +50,7 @@ func runC18(c *Ctx) {
 				return true
 			}
 			nw++
-			held := fc.heldAt(call)
+			held := normHeld(fc.heldAt(call), true)
 			key := fmt.Sprintf("%s|Stream.Write#%d", funcKey(p, b.Decl), nw)
 			var mus []string
 			for k := range held {
@@ -361,7 +361,7 @@ func runC18(c *Ctx) {
 			}
 			nacc++
 			mu := types.ExprString(se.X) + "." + pendingMu.Name()
-			held := fc.heldAt(se)
+			held := normHeld(fc.heldAt(se), accessIsWrite(b.Body, se))
 			c.check(held[mu], "C18.R4", fmt.Sprintf("%s|pending-access#%d", funcKey(p, b.Decl), nacc), c.pos(se.Pos()), "under "+mu,
 				"the pending map is accessed without holding "+mu+" "+heldList(held)+": concurrent map access between callers and the reader")
 			return false
